@@ -31,6 +31,20 @@ CLAIMS = {
        'assumed deterministic for a given seed.'),
 }
 
+CLAIMS['C06'] = dict(
+  technique='protocol rules on structured control flow (dominance, path events, who-may-write) + symbolic shape typing of every return path',
+  text='Decides: every objective call in the request wrapper is dominated by the budget test on the same batch; the '
+       'evaluation counter is increased exactly once by len(batch) after a successful call and on no None / uncalled '
+       'path; only indices absent from the cache are evaluated and hits are counted; the complete package-wide set '
+       'of writers of info["stop"] with literal, guarding condition and priority e_vld > e > nswp; every request '
+       'inside a half-sweep is followed by a stop test whose branch folds the pending factor on the correct side '
+       'into the current core, refreshes info from the returned tensor and returns it; nswp is increased once per '
+       'sweep; the ValueError rejections precede the first effect; every return path (including interruption at '
+       'every core of either half-sweep, d = 2,3) is a well-formed tensor of the original mode sizes; batches handed '
+       'to the objective are int arrays of width d.',
+  note='Not decided: finiteness of the returned cores, tightness of m, index values beyond being copies of arange(n_k). '
+       'Trusted: stop-writer table frozen from the documented protocol; summary axiom of utils._maxvol (validated by C08).')
+
 _PENDING = 'check not built yet in this session (see DESIGN.md section 7 build order); not claimed'
 NOT_APPLICABLE = {p: _PENDING for p in
                   ['C01', 'C02', 'C03', 'C04', 'C05', 'C06', 'C07', 'C08', 'C11', 'C12', 'C13', 'C14',
